@@ -35,6 +35,12 @@ THEOREMS = [
     "PV.C14.C14_kw_multi",
     "PV.C14.C14_outcome_single",
     "PV.C14.C14_outcome_multi",
+    # the decimation factor itself: q = 0 (ZeroDivisionError), q = 1 (FIR: ValueError; IIR: accepted) - side conditions
+    # of Op.accepted / activeQs, mirrored from scipy.signal.decimate and compared with it in the malformed-rich enumeration
+    "PV.C14.C14_decimate_q_single",
+    "PV.C14.C14_decimate_q_multi",
+    "PV.C14.C14_decimate_q0_single",
+    "PV.C14.C14_decimate_bad_q_noop",
     "PV.C14.Mutants.pinned_single_duration",
     "PV.C14.Mutants.helperTM_multi_duration",
     "PV.C14.Mutants.staleDt_multi_dt",
@@ -290,6 +296,21 @@ def gen_alphabet_malformed(ctx, cfg):
         "q": rng.randint(2, 5),
         "kw": rng.choice([{"bogus": 1}, {"ftype": "cheby", "n": 4}, {"ftype": "fir", "bogus": 1, "axis": 0}, {"ftype": "cheby", "bogus": 1}]),
     }
+    # the factor itself: scipy divides by q (ZeroDivisionError at 0), q = 1 is an illegal FIR cut-off (ValueError) but a
+    # legal IIR call (Chebyshev at 0.8 Nyquist, same length, fs/1); error precedence against unknown keyword / bad ftype
+    dec_q = rng.choice(
+        [
+            {"k": "decimate", "q": 0},
+            {"k": "decimate", "q": 0, "kw": {"ftype": "fir", "n": 12}},
+            {"k": "decimate", "q": 0, "kw": {"ftype": "cheby"}},
+            {"k": "decimate", "q": 0, "kw": {"bogus": 1}},
+            {"k": "decimate", "q": 1, "kw": {"ftype": "fir"}},
+            {"k": "decimate", "q": 1, "kw": {"ftype": "fir", "n": 10, "zero_phase": False}},
+            {"k": "decimate", "q": 1},
+            {"k": "decimate", "q": 1, "kw": {"n": 4, "zero_phase": False}},
+            {"k": "decimate", "q": 1, "kw": {"ftype": "cheby"}},
+        ]
+    )
     det_eq = {"k": "detrend", "kw": {"bp": [nq]}}
     det_over = {"k": "detrend", "kw": rng.choice([{"bp": [nq + 1]}, {"bp": [7, nq + 1], "type": "linear"}, {"bp": nq + 1, "axis": 0}])}
     det_bad = {
@@ -311,7 +332,7 @@ def gen_alphabet_malformed(ctx, cfg):
             {"k": "filter", "Wn": [fs0 * 0.05, fs0 * 0.9], "order": 2, "btype": "bandstop"},
         ]
     )
-    return [dec_ok, dec_bad, det_eq, det_over, det_bad, filt_edge, filt_bad, {"k": "rollback"}]
+    return [dec_ok, dec_bad, dec_q, det_eq, det_over, det_bad, filt_edge, filt_bad, {"k": "rollback"}]
 
 
 def seq_min_len(cfg, seq):
@@ -322,7 +343,7 @@ def seq_min_len(cfg, seq):
     for op in seq:
         if op["k"] in ("decimate", "filter"):
             m = min(m, n)
-        if op["k"] == "decimate" and not ({"bogus"} & set(op.get("kw", {}))) and op.get("kw", {}).get("ftype", "iir") in ("iir", "fir"):
+        if op["k"] == "decimate" and not ({"bogus"} & set(op.get("kw", {}))) and op.get("kw", {}).get("ftype", "iir") in ("iir", "fir") and op["q"] >= 1:
             n = -(-n // op["q"])
         elif op["k"] == "rollback":
             n = n0
@@ -334,7 +355,8 @@ def tie_free(cfg, seq):
     fs = cfg.fs0
     for op in seq:
         if op["k"] == "decimate":
-            fs = fs / op["q"]
+            if op["q"] >= 1:
+                fs = fs / op["q"]
         elif op["k"] == "rollback":
             fs = cfg.fs0
         elif op["k"] == "filter":
@@ -700,7 +722,7 @@ class Expect:
                 self.last_q = None
                 self.fs = self.cfg.fs0
             return "ok"
-        except (TypeError, ValueError) as e:
+        except (TypeError, ValueError, ZeroDivisionError) as e:
             return type(e).__name__
 
     def handed(self, arrays=None):
